@@ -196,28 +196,40 @@ def lookupR (rs : Results) (p : String × String) : Option (Outcome Tree) :=
   | some r => some r.2
   | none => none
 
+/-- Result of a call whose source field may be absent (absent = nil argument). -/
+def orNilArg (o : Option (Outcome Tree)) (nilCase : Outcome Tree) : Outcome Tree :=
+  match o with
+  | some r => r
+  | none => nilCase
+
 /-- Value of one destination field, given the converted source fields `rs`. -/
 def fieldValue (P : Prog) (fs : Forest) (rs : Results) (fc : FieldConv) : Outcome Tree :=
   match fc.via with
   | .copy => .ok (fs.get fc.src)
   | .const w => .ok (.opaque w)
-  | .call f =>
-    match lookupR rs (fc.src, f) with
-    | some o => o
-    | none => convNil P f          -- absent source field = nil argument
+  | .call f => orNilArg (lookupR rs (fc.src, f)) (convNil P f)
 
 /-- The composite literal: fields are evaluated in order, the first panic wins. -/
-def assemble (P : Prog) (fs : Forest) (rs : Results) : List FieldConv → Outcome Forest
+def assembleWith (val : FieldConv → Outcome Tree) : List FieldConv → Outcome Forest
   | [] => .ok .nil
   | fc :: r =>
-    match fieldValue P fs rs fc with
+    match val fc with
     | .ok v =>
-      match assemble P fs rs r with
+      match assembleWith val r with
       | .ok out => .ok (.cons fc.dst v out)
       | .panic m => .panic m
       | .illTyped => .illTyped
     | .panic m => .panic m
     | .illTyped => .illTyped
+
+def assemble (P : Prog) (fs : Forest) (rs : Results) (fcs : List FieldConv) : Outcome Forest :=
+  assembleWith (fieldValue P fs rs) fcs
+
+/-- A node value from its assembled fields. -/
+def mkNode (kind : String) : Outcome Forest → Outcome Tree
+  | .ok out => .ok (.node kind out)
+  | .panic m => .panic m
+  | .illTyped => .illTyped
 
 mutual
 /-- `conv P f ctx t`: converter function `f` of program `P` applied to `t`; `ctx` are the fields
@@ -229,10 +241,7 @@ def conv (P : Prog) (f : String) (ctx : Forest) : Tree → Outcome Tree
     | some (.switch _ cases dflt) =>
       match findCase cases k with
       | some c =>
-        match assemble P fs (convFields P (callPairs c.fields) fs fs) c.fields with
-        | .ok out => .ok (.node c.dst out)
-        | .panic m => .panic m
-        | .illTyped => .illTyped
+        mkNode c.dst (assemble P fs (convFields P (callPairs c.fields) fs fs) c.fields)
       | none =>
         match dflt with
         | some m => .panic (m ++ k)
